@@ -458,11 +458,8 @@ theorem compose_decompAt (E : Env) (hC : ComposeClosed E.T.compose = true) (s : 
 /-- what the reduce table does to one character -/
 def red1 (m : List (List Nat × List Nat)) (c : Nat) : List Nat := (mapGet m [c]).getD [c]
 
-/-- decidable closure condition on a reduce table: every key is a single character, and no character of a
-    replacement is itself a key (folding is idempotent and, there being no two-character keys, never
-    interacts with the neighbours). -/
-def FoldClosed (m : List (List Nat × List Nat)) : Bool :=
-  m.all (fun e => e.1.length == 1 && e.2.all (fun c => (mapGet m [c]).isNone))
+/- `FoldClosed` (every reduce key is a single character, and no character of a replacement is itself a key) and
+   its `foldClosed_*` instances for the generated tables live in `Lemmas/Facts.lean`. -/
 
 /-- decidable cross-table condition: no character of a reduce replacement is a combining mark of the compose
     table (so a folded spelling is still in composed form) -/
@@ -677,13 +674,6 @@ theorem composeClosed_fr : ComposeClosed Gen.lang_fr.compose = true := by decide
 theorem composeClosed_pt : ComposeClosed Gen.lang_pt.compose = true := by decide
 theorem composeClosed_ru : ComposeClosed Gen.lang_ru.compose = true := by decide
 
-theorem foldClosed_none : FoldClosed Gen.lang_none.reduce = true := by decide
-theorem foldClosed_de : FoldClosed Gen.lang_de.reduce = true := by decide
-theorem foldClosed_en : FoldClosed Gen.lang_en.reduce = true := by decide
-theorem foldClosed_es : FoldClosed Gen.lang_es.reduce = true := by decide
-theorem foldClosed_fr : FoldClosed Gen.lang_fr.reduce = true := by decide
-theorem foldClosed_pt : FoldClosed Gen.lang_pt.reduce = true := by decide
-theorem foldClosed_ru : FoldClosed Gen.lang_ru.reduce = true := by decide
 
 theorem foldMarkFree_none : FoldMarkFree Gen.lang_none = true := by decide
 theorem foldMarkFree_de : FoldMarkFree Gen.lang_de = true := by decide
